@@ -5,6 +5,7 @@ package routing
 // Contracts for the verifier in /verif (comment-only file; no declarations).
 
 //@ func muskingum(inflows, laterals, s, prevInflow, prevOutflow, k, x, deltaT, outflows) returns (rs, rIn, rOut)
+//@   locals idx, nDays, kx2, denom, a1, a2, a3, i, inflow, lateral, outflow
 //@   canary [C11.canary-muskingum] implies(inflows.len > 0, outflows.at(0) == inflows.at(0))
 //@   kernel
 //@   states s, prevInflow, prevOutflow
@@ -24,6 +25,7 @@ package routing
 // when the working volume is below MINIMUM_VOLUME (0.01)
 
 //@ func LumpedConstituentTransport(inflowLoads, lateralLoads, outflows, storage, initialStoredMass, x, pointInput, deltaT, outflowLoads, pointSourceLoad) returns (rStored)
+//@   locals nDays, idx, i, inflowLoad, lateralLoad, totalLoadIn, outflowR, outflowV, storedV, workingMass, workingVol, concentration, outflowLoad
 //@   kernel
 //@   states initialStoredMass
 //@   noalias
@@ -45,6 +47,7 @@ package routing
 // ---- C12: constituent decay ----
 
 //@ func constituentDecay(inflowLoads, lateralLoads, inflows, outflows, storage, storedMass, x, halflife, deltaT, decayedLoad, outflowLoads) returns (rStored)
+//@   locals n, idx, day, decayedAmount, fraction, inflowLoad, lateralLoad, workingMass, outflowR, outflowV, storedV, workingVol, concentration, outflowLoad
 //@   kernel
 //@   states storedMass
 //@   noalias
@@ -65,6 +68,7 @@ package routing
 // ---- C12: in-stream coarse sediment: everything is deposited in the channel store ----
 
 //@ func instreamCoarseSediment(upstreamMass, lateralMass, reachLocalMass, channelStore, storedMass, deltaT, loadDownstream) returns (rChannel, rStored)
+//@   locals n, idx, i, dailyCoarseSedDeposited_Kg, totalDailyConstituentMass, incomingMass
 //@   kernel
 //@   states channelStore, storedMass
 //@   noalias
@@ -85,6 +89,7 @@ package routing
 //@ spec fineMaxStorage(propBankHeightForFineDep real, bankHeight real, linkWidth real, linkLength real, sedBulkDensity real) real = propBankHeightForFineDep * bankHeight * (linkWidth * linkLength) * sedBulkDensity * 1000.0
 
 //@ func instreamFineSediment(upstreamMass, lateralMass, reachLocalMass, reachVolume, outflow, channelStoreFine, totalStoredMass, bankFullFlow, fineSedSettVelocityFlood, floodPlainArea, linkWidth, linkLength, linkSlope, bankHeight, propBankHeightForFineDep, sedBulkDensity, manningsN, fineSedSettVelocity, fineSedReMobVelocity, durationInSeconds, loadDownstream, loadToFloodplain, loadToChannelDeposition, floodplainDepositionFraction, channelDepositionFraction) returns (rChannel, rStored)
+//@   locals n, idx, linkArea, maxStorage, i, incomingMassNow, outflowRate, outflowNow, reachVolumeNow, totalDailyConstsituentMass, totalVolume, combinedConstituentStorageBeforeDeposition, floodPlainDepositionFine_Kg_per_Day, proportionDepositedFloodplain, netStreamDepositionFineSed, proportionDepositedChannel, outflowLoad, concentration
 //@   kernel
 //@   states channelStoreFine, totalStoredMass
 //@   carries-normalised channelStoreFine
@@ -109,6 +114,7 @@ package routing
 // ---- C12: in-stream particulate nutrient ----
 
 //@ func instreamParticulateNutrient(incomingMassUpstream, incomingMassLateral, reachVolume, outflow, streamBankErosion, lateralSediment, floodplainDepositionFraction, channelDepositionFraction, initialInstreamStoredMass, initialChannelStoredMass, particulateNutrientConcentration, soilPercentFine, durationInSeconds, loadDeposited, loadFromStreambank, loadDownstream, loadToFloodplain) returns (rInstream, rChannel)
+//@   locals n, idx, i, incomingUpstream, incomingLateral, totalDailyConstsituentMass, totalDailyConstsituentMassForDepositionProcesses, streamBankParticulate, fpDepositionFraction, nutrientDailyDepositedFloodPlain, bedDepositSignal, bedExchange, resuspension, netLoss, amountLeft, outflowRate, outflowV, storedV, workingVol, concentration, outflowLoad
 //@   kernel
 //@   states initialInstreamStoredMass, initialChannelStoredMass
 //@   noalias
@@ -131,6 +137,7 @@ package routing
 // returned buffer holds C[n .. n+L).
 
 //@ func lag(inflow, lagged, timeLag, outflow) returns (r)
+//@   locals lagSteps, idx, i, idxInflow, i, i, i, i
 //@   kernel causal-by-ensures
 //@   states lagged
 //@   noalias
@@ -162,6 +169,7 @@ package routing
 //@ spec srIndexStorage(q real, routingPower real, routingConstant real, Qlimit real, Klimit real, Koffset real, deadStorage real) real = ite(q <= 0, deadStorage, ite((routingPower <= 1 && q < Qlimit) || (routingPower > 1 && q > Qlimit), Klimit*q + deadStorage, routingConstant*pow(q, routingPower) - Koffset + deadStorage))
 
 //@ func runRouting(qIndex, inflow, lateral, initialFluxMax, storage, area, netEvapRate, deadStorage, duration, bias, routingPower, routingConstant, Qlimit, Klimit, Koffset) returns (massBalance, outflow, SIndex)
+//@   locals fluxmax, netEvaporationFlux, newStorage
 //@   safety C11
 //@   requires duration > 0
 //@   ensures [C11.rr-index-storage] SIndex == min(srIndexStorage(qIndex, routingPower, routingConstant, Qlimit, Klimit, Koffset, deadStorage), srNewStorage(storage, inflow, lateral, srEvapFlux(initialFluxMax, area, netEvapRate), duration))
@@ -170,6 +178,7 @@ package routing
 
 // calcOutflow with zero inflow bias (Klimit = k, Koffset = 0, Qlimit = 0 for m <= 1)
 //@ func calcOutflow(timestep, inflow, lateral, bias, prevQi, prevOutflow, prevStorage, netEvapRate, area, deadStorage, duration, routingPower, routingConstant, Qlimit, Klimit, Koffset) returns (qi, outflow, storage)
+//@   locals initialFluxMax, evaluateRouting, evaluateRoutingMassBalance, delta, slopeOfMassBalance, minQI, delta, outflow, storage, fluxmax, netEvaporationFlux, maxQI
 //@   safety C11
 //@   panics allowed
 //@   requires bias == 0 && Klimit == routingConstant && Koffset == 0 && Qlimit == 0
@@ -182,6 +191,7 @@ package routing
 //@   ensures [C11.sr-law] implies(outflow > 0 && qi > 0 && storage > lateral*duration, storage == routingConstant*pow(qi, routingPower) + deadStorage)
 
 //@ func storageRouting(inflows, laterals, rainfall, evap, s, prevInflow, prevOutflow, bias, k, x, area, deadStorage, deltaT, outflows, storages) returns (rS, rIn, rOut)
+//@   locals n, idx, Klimit, Qlimit, Koffset, qi, outflow, storage, inflow, i, lateral, evapRate
 //@   kernel
 //@   states s, prevInflow, prevOutflow
 //@   approx qi
@@ -201,6 +211,7 @@ package routing
 
 // in-stream dissolved nutrient (decay): structural obligations only
 //@ func instreamDissolvedNutrient
+//@   locals n, idx, prevVolume, timeStepInDays, pointSourcePerSecond, i, reachVolumeNow, incomingMassUpstreamNow, incomingMassLateralNow, outflowNow, incomingMassNow, totalConstsituentLoad, pointSourceLoad_kg, constituentStoragePriorToInflows, loadOut, waterDepth, dailyDecayedConstituentLoad, effectiveDecayCoefficient, decayCoefficient, travelTimeInSeconds, avStorage, crossAreaSection_m2, flowVelocity, outflowRate, DailyLateralLoad_Kg_per_s, allAvailConstit
 //@   structural only
 //@   kernel
 //@   states storedMass
@@ -210,6 +221,7 @@ package routing
 // =====================================================================
 
 //@ func (*Muskingum).ApplyParameters(m, parameters)
+//@   locals nSets, newShape, paramIdx, paramSize
 //@   ndmodel locations
 //@   requires parameters.rank == 2 && parameters.dim(0) >= 3 && parameters.dim(1) >= 1
 //@   assigns m.K, m.X, m.DeltaT
@@ -218,6 +230,7 @@ package routing
 //@   ensures [C04.param-view] m.DeltaT.rank == 1 && m.DeltaT.dim(0) == parameters.dim(1) && m.DeltaT.root == parameters.root && forall(c, 0, parameters.dim(1), m.DeltaT.idx(c) == parameters.idx(2, c))
 
 //@ func (*Muskingum).Run(m, inputs, states, outputs)
+//@   locals inputDims, numCells, numStates, numInputSequences, inputLen, cellInputsShape, inputNewShape, outputStepSlice, outputSizeSlice, statesSizeSlice, inputsSizeSlice, doneChan, j, outputPosSlice, statesPosSlice, inputsPosSlice, k, x, deltat, initialStates, s, previnflow, prevoutflow, cellInputs, inflow, lateral, outflow, j
 //@   ndmodel locations
 //@   requires inputs.rank == 3 && states.rank == 2 && outputs.rank == 3
 //@   requires inputs.dim(0) >= 1 && inputs.dim(1) == 2 && inputs.dim(2) >= 0 && states.dim(0) >= 0 && states.dim(1) == 3
@@ -241,6 +254,7 @@ package routing
 // ---- C04/C06: Lag state packing and the Lag wrapper (hand-written: the state row is the lag buffer) ----
 
 //@ func packLagStates(lagged) returns (result)
+//@   locals result
 //@   ndmodel locations
 //@   assigns nothing
 //@   fresh result
@@ -255,12 +269,14 @@ package routing
 //@   ensures [C06.extract-lag-buffer,C04.extract-lag-buffer] len(lagged) == states.dim(0) && forall(k, 0, states.dim(0), lagged[k] == states.elem(k))
 
 //@ func (*Lag).ApplyParameters(m, parameters)
+//@   locals nSets, newShape, paramIdx, paramSize
 //@   ndmodel locations
 //@   requires parameters.rank == 2 && parameters.dim(0) >= 1 && parameters.dim(1) >= 1
 //@   assigns m.timeLag
 //@   ensures [C04.param-view] m.timeLag != nil && m.timeLag.rank == 1 && m.timeLag.dim(0) == parameters.dim(1) && m.timeLag.root == parameters.root && forall(c, 0, parameters.dim(1), m.timeLag.idx(c) == parameters.idx(0, c))
 
 //@ func (*Lag).Run(m, inputs, states, outputs)
+//@   locals inputDims, numCells, numStates, numInputSequences, inputLen, cellInputsShape, inputNewShape, outputStepSlice, outputSizeSlice, statesSizeSlice, inputsSizeSlice, doneChan, j, outputPosSlice, statesPosSlice, inputsPosSlice, timelag, initialStates, lagged, cellInputs, inflow, outflow, j
 //@   ndmodel locations
 //@   requires inputs.rank == 3 && states.rank == 2 && outputs.rank == 3
 //@   requires inputs.dim(0) >= 1 && inputs.dim(1) == 1 && inputs.dim(2) >= 0 && states.dim(0) >= 0 && states.dim(1) >= 0
